@@ -33,13 +33,15 @@ QR == <<113, 114>>
 CmdLike == <<99, 32, 78, 13, 10>>             \* c N CRLF   (a literal that looks like a command)
 AnnLike == <<123, 53, 125, 13, 10>>           \* {5} CRLF   (a literal that looks like an announcement)
 AnnLine == <<100, 32, 123, 52, 125, 13, 10>>  \* d {4} CRLF
+BraceEnd == <<120, 123, 50, 125>>             \* x{2}      (literal data whose last octets look like an announcement)
+BracePlusEnd == <<120, 123, 50, 43, 125>>     \* x{2+}
 
 L(sync, data, tail) == [sync |-> sync, n |-> Size(data), data |-> data, tail |-> tail, ab |-> FALSE]
 LAb(n) == [sync |-> TRUE, n |-> n, data |-> <<>>, tail |-> <<>>, ab |-> TRUE]
 Cmd(h, ls) == [head |-> h, lits |-> ls]
 
-Datas == {QR, CmdLike, AnnLike, <<120, 13>>, <<10, 120>>, <<>>, Z(3), <<13, 10, 13, 10>>}
-Datas2 == {QR, CmdLike, AnnLike, <<120, 13>>}
+Datas == {QR, CmdLike, AnnLike, <<120, 13>>, <<10, 120>>, <<>>, Z(3), <<13, 10, 13, 10>>, BraceEnd, BracePlusEnd}
+Datas2 == {QR, CmdLike, AnnLike, <<120, 13>>, BraceEnd, BracePlusEnd}
 Tails == {<<>>, TailY}
 
 One == {Cmd(h, <<L(sy, d, t)>>) : h \in {HeadA, HeadB}, sy \in BOOLEAN, d \in Datas, t \in Tails}
@@ -79,7 +81,9 @@ CoreSmall ==
       Cmd(HeadA \o Z(MX), <<>>),
       Cmd(HeadA, <<L(FALSE, Z(MX - 4), <<>>)>>),
       Cmd(HeadA, <<L(FALSE, Z(MX - 4), TailY)>>),
-      Cmd(HeadA, <<L(TRUE, Z(FitK(0)), <<>>)>>) }
+      Cmd(HeadA, <<L(TRUE, Z(FitK(0)), <<>>)>>),
+      Cmd(HeadA, <<L(TRUE, BraceEnd, <<>>)>>),
+      Cmd(HeadA, <<L(FALSE, BracePlusEnd, <<>>)>>) }
 CoreBig == CoreSmall \cup
     { Cmd(HeadA, <<L(TRUE, QR, TailY), LAb(MX + 1)>>),
       Cmd(HeadA, <<L(FALSE, Z(MX + 1) \o CmdLike, <<>>)>>),
